@@ -705,10 +705,8 @@ class Exec:
             return k(T("False", "prop"), st)
         if name == "__builtin_expect":
             return self.ev(args[0], fr, st, cx, k)
-        if name in ("abs", "labs", "llabs"):
+        if name in ("abs", "labs", "llabs") and classify(type_of(e))[0][0] == "word":
             c, _, _ = classify(type_of(e))
-            if c[0] != "word":
-                raise Untranslatable("abs on %s" % type_of(e))
             return self.rvalue(args[0], fr, st, cx, lambda v, st2: k(T("(abs%s %s)" % (c[1], as_int(v).s), "int", c[1]), st2))
         f = self.prog.def_of.get(ref["id"])
         if f is None:
